@@ -380,10 +380,12 @@ int hwloc_bitmap_sscanf(struct hwloc_bitmap_s *set, const char * __hwloc_restric
   int ulongcount;
   int infinite = 0;
 
-  /* count how many substrings there are */
+  /* count how many substrings there are (one more than the number of commas) */
   count++;
-  while ((current = strchr(current+1, ',')) != NULL)
+  while ((current = strchr(current, ',')) != NULL) {
+    current++;
     count++;
+  }
 
   current = string;
   if (!strncmp("0xf...f", current, 7)) {
@@ -435,6 +437,10 @@ int hwloc_bitmap_sscanf(struct hwloc_bitmap_s *set, const char * __hwloc_restric
     }
     current = (const char*) next+1;
   }
+
+  if (count > 0)
+    /* the string is empty or ends with a comma, the last substring is empty (zero), store what was accumulated */
+    set->ulongs[0] = accum;
 
   set->infinite = infinite; /* set at the end, to avoid spurious realloc with filled new ulongs */
 
